@@ -45,50 +45,59 @@ type c04Form struct {
 	// tpl: loop markup over collection expression `xs`; prints [[I:<idx>|<item>|<outer>] per instance
 	tpl    func(varName string) string
 	hasIdx bool
+	// skip: items the looped element's own v-if rejects (nil = none)
+	skip func(i int) bool
 }
 
 func c04Forms() []c04Form {
 	return []c04Form{
-		{"item", func(v string) string { return `<li v-for="` + v + ` in xs">[[I:|{{ ` + v + ` }}|{{ outer }}]]</li>` }, false},
+		{"item", func(v string) string { return `<li v-for="` + v + ` in xs">[[I:|{{ ` + v + ` }}|{{ outer }}]]</li>` }, false, nil},
 		{"index-item", func(v string) string {
 			return `<li v-for="(i, ` + v + `) in xs">[[I:{{ i }}|{{ ` + v + ` }}|{{ outer }}]]</li>`
-		}, true},
+		}, true, nil},
 		{"template", func(v string) string {
 			return `<template v-for="(i, ` + v + `) in xs"><b>[[I:{{ i }}|{{ ` + v + ` }}|{{ outer }}]]</b></template>`
-		}, true},
+		}, true, nil},
 		{"with-vif-true", func(v string) string {
 			return `<li v-for="(i, ` + v + `) in xs" v-if="yes">[[I:{{ i }}|{{ ` + v + ` }}|{{ outer }}]]</li>`
-		}, true},
+		}, true, nil},
+		// the looped element's own v-if REJECTS an item: that item renders nothing and leaves nothing behind in the scope
+		{"with-vif-filter", func(v string) string {
+			return `<li v-for="(i, ` + v + `) in xs" v-if="i != 1">[[I:{{ i }}|{{ ` + v + ` }}|{{ outer }}]]</li>`
+		}, true, func(i int) bool { return i == 1 }},
+		{"with-vif-filter-last", func(v string) string {
+			return `<li v-for="(i, ` + v + `) in xs" v-if="i < 1">[[I:{{ i }}|{{ ` + v + ` }}|{{ outer }}]]</li>`
+		}, true, func(i int) bool { return i >= 1 }},
 		{"with-binding", func(v string) string {
 			return `<li v-for="(i, ` + v + `) in xs" :data-x="` + v + `" :class="{c: i}">[[I:{{ i }}|{{ ` + v + ` }}|{{ outer }}]]</li>`
-		}, true},
+		}, true, nil},
 		{"child-reads", func(v string) string {
 			return `<ul v-for="(i, ` + v + `) in xs"><li><em>[[I:{{ i }}|{{ ` + v + ` }}|{{ outer }}]]</em></li></ul>`
-		}, true},
+		}, true, nil},
 		// the looped element is, or contains, a <template> that is evaluated in place (include with per-item props, v-html of the item)
 		{"include-bound", func(v string) string {
 			return `<template v-for="(i, ` + v + `) in xs" include="card.vuego" :x="` + v + `" :i="i"></template>`
-		}, true},
+		}, true, nil},
 		{"include-nested", func(v string) string {
 			return `<div v-for="(i, ` + v + `) in xs"><template include="card.vuego" :x="` + v + `" :i="i"></template></div>`
-		}, true},
+		}, true, nil},
 		{"template-vhtml", func(v string) string {
 			return `<div v-for="(i, ` + v + `) in xs">[[I:{{ i }}|<template v-html="` + v + `"></template>|{{ outer }}]]</div>`
-		}, true},
+		}, true, nil},
 		// a bound attribute whose NAME is the loop variable (`<option :value="value">`): only <template :x> writes through to the parent scope
 		{"bound-same-name", func(v string) string {
 			return `<li v-for="(i, ` + v + `) in xs" :` + v + `="` + v + `" :i="i">[[I:{{ i }}|{{ ` + v + ` }}|{{ outer }}]]</li>`
-		}, true},
+		}, true, nil},
 		{"child-bound-same-name", func(v string) string {
 			return `<ul v-for="(i, ` + v + `) in xs"><li :` + v + `="` + v + `" :i="i"><em>[[I:{{ i }}|{{ ` + v + ` }}|{{ outer }}]]</em></li></ul>`
-		}, true},
+		}, true, nil},
 		// the loop variables read THROUGH THE EXPRESSION EVALUATOR (its environment is built by EnvMap, not by Lookup)
 		{"expr-reads", func(v string) string {
 			return `<li v-for="(i, ` + v + `) in xs">[[I:{{ i + 0 }}|{{ true ? ` + v + ` : 0 }}|{{ outer }}]]</li>`
-		}, true},
+		}, true, nil},
 		{"expr-context", func(v string) string {
 			return `<li v-for="(i, ` + v + `) in xs"><em v-if="` + v + ` == ` + v + `">[[I:{{ i }}|{{ ` + v + ` }}|{{ outer }}]]</em></li>`
-		}, true},
+		}, true, nil},
 	}
 }
 
@@ -96,6 +105,9 @@ func c04Eval(coll c04Coll, form c04Form, varName string, withElse bool, rootKind
 	tpl := `<b>[[before:{{ ` + varName + ` }}]]</b>` + form.tpl(varName)
 	if withElse {
 		tpl += `<p v-else>[[else]]</p>`
+	}
+	if form.skip != nil {
+		tpl += `<i>[[mid:{{ i }}]]</i>` // the loop's index variable is gone after the loop, rejected items included
 	}
 	tpl += `<b>[[after:{{ ` + varName + ` }}]]</b>`
 	outerVal := "OUTERVAL"
@@ -152,11 +164,18 @@ func c04Eval(coll c04Coll, form c04Form, varName string, withElse bool, rootKind
 		if form.hasIdx {
 			idx = fmt.Sprint(i)
 		}
+		if form.skip != nil && form.skip(i) {
+			continue
+		}
 		want = append(want, fmt.Sprintf("I:%s|%s|O", idx, s))
 		n++
 	}
+	_ = n
 	if withElse && n == 0 {
 		want = append(want, "else")
+	}
+	if form.skip != nil {
+		want = append(want, "mid:")
 	}
 	want = append(want, "after:"+before)
 	var got []string
